@@ -3,4 +3,6 @@ pub mod bv;
 pub mod evalref;
 pub mod run;
 pub mod sweep;
+pub mod sysgen;
 pub mod terms;
+pub mod tsref;
